@@ -61,6 +61,7 @@ fn real_reload(c: &BuiltCase, graph: &mut ModuleGraph, specs: &[String]) -> Vec<
     unstable_bytes_imports: c.unstable.0,
     unstable_text_imports: c.unstable.1,
     unstable_css_imports: c.unstable.2,
+    passthrough_jsr_specifiers: c.world.passthrough_jsr,
     executor: &exec,
     ..Default::default()
   };
